@@ -152,18 +152,27 @@ def close(x, y):
 
 def cmp_view(got, exp):
     """None if equal, else (component, detail, message)"""
-    if got[0] is not None:
-        return ("tips" if "tip" in got[0] or got[0] == "single-node" else "D", got[0], f"result tree is malformed: {got[0]} (tips {got[1]})")
+    if got[0] is not None and got[0] != "missing-length":
+        return ("tips", got[0], f"result tree is malformed: {got[0]} (tips {got[1]})")
     if got[1] != exp[1]:
         missing = [t for t in exp[1] if t not in got[1]]
         extra = [t for t in got[1] if t not in exp[1]]
         d = "+".join(w for w, x in (("missing", missing), ("extra", extra)) if x)
         return ("tips", d, f"tips {got[1]} expected {exp[1]}")
+    if got[0] is not None:
+        return ("D", got[0], f"an edge of the result has no length (tips {got[1]})")
     worse = {k: (got[2][k], exp[2][k]) for k in exp[2] if not close(got[2][k], exp[2][k])}
     if worse:
         longer = any(g > e for g, e in worse.values())
         shorter = any(g < e for g, e in worse.values())
         d = "longer" if longer and not shorter else "shorter" if shorter and not longer else "mixed"
+        # witness pattern: do the changed pairs fill exactly one group of tips, all off by the same amount?
+        group = sorted({t for k in worse for t in k})
+        diffs = [g - e for g, e in worse.values()]
+        one_group = len(worse) == len(group) * (len(group) - 1) // 2
+        uniform = all(abs(x - diffs[0]) <= 1e-9 * max(1.0, abs(diffs[0])) for x in diffs)
+        d += "-within-one-tip-group-by-a-constant" if one_group and uniform else "-within-one-tip-group" if one_group else \
+            "-by-a-constant" if uniform else "-scattered"
         k = sorted(worse)[0]
         return ("D", d, f"{len(worse)} of {len(exp[2])} path lengths changed, e.g. d{k} = {worse[k][0]!r}, expected {worse[k][1]!r}")
     if got[3] != exp[3]:
@@ -209,7 +218,8 @@ def _num(x):
 
 def snapshot(t):
     return (t.get_newick(with_distances=True, with_node_names=True), walk(t),
-            [(n.name, bool(n.name_loaded), sorted((str(k), repr(_num(v) if k == "length" else v)) for k, v in n.params.items()))
+            [(n.name, bool(n.name_loaded), sorted((str(k), repr(_num(v) if k == "length" else v)) for k, v in n.params.items()
+                                                  if v is not None))  # a parameter that is None and an absent one mean the same
              for n in t.preorder()])
 
 
@@ -347,14 +357,12 @@ class Skip(Exception):
     pass
 
 
-NEW_TREE_OPS = {"copy", "deepcopy", "unrooted", "root_at_midpoint", "sorted", "rooted_at", "rooted_with_tip",
-                "get_sub_tree", "get_sub_tree(tipsonly)", "get_sub_tree(keep_root)", "get_sub_tree(ignore_missing)",
-                "newick", "newick_std", "newick_names", "json", "file_json", "file_nwk"}
-
-
 def opname_of(op):
-    return {"midpoint": "root_at_midpoint", "with_tip": "rooted_with_tip", "file": "file",
-            "sub": "get_sub_tree"}.get(op[0], op[0])
+    if op[0] == "file":
+        return "file_" + op[1]
+    if op[0] == "sub":
+        return ["get_sub_tree", "get_sub_tree(tipsonly)", "get_sub_tree(keep_root)", "get_sub_tree(ignore_missing)"][op[2]]
+    return {"midpoint": "root_at_midpoint", "with_tip": "rooted_with_tip"}.get(op[0], op[0])
 
 
 def intent_check(name, extra, recv_model, res_model, exp):
@@ -399,19 +407,22 @@ def intent_check(name, extra, recv_model, res_model, exp):
     return None
 
 
-def run_chain(model, ops, direct=False, prefix=""):
+def run_chain(model, ops, direct=False, prefix="", keyfn=None):
     """shared engine of every transformation contract"""
+    def K(name, comp, detail, sig):
+        return keyfn(name, comp, detail, sig) if keyfn else f"{prefix}{name}/{comp}/{detail}/{sig}"
+
     try:
         t = build_direct(model) if direct else build_newick(model)
     except Exception as e:
-        return ("fail", f"{prefix}build/raises-{type(e).__name__}", f"{spec_newick(model) if not direct else model}: {type(e).__name__}: {e}")
+        return ("fail", K("build", "raises", type(e).__name__, "-"), f"{spec_newick(model) if not direct else model}: {type(e).__name__}: {e}")
     v0 = view(model)
     if v0[0] is not None:
         raise AssertionError(f"generator produced a malformed model: {v0[0]}")
     m0 = walk(t)
     c = cmp_view(view(m0), v0)
     if c:
-        return ("fail", f"{prefix}parse/{c[0]}/{c[1]}", f"make_tree({spec_newick(model)!r}): {c[2]}")
+        return ("fail", K("parse", c[0], c[1], "-"), f"make_tree({spec_newick(model)!r}): {c[2]}")
     t_first, snap_first, first_name = t, snapshot(t), None
     where = spec_newick(model) if not direct else repr(model)
     done = []
@@ -425,7 +436,7 @@ def run_chain(model, ops, direct=False, prefix=""):
         except Skip:
             return ("skip",)
         except Exception as e:
-            return ("fail", f"{prefix}{opname_of(op)}/raises-{type(e).__name__}/{sig}",
+            return ("fail", K(opname_of(op), "raises", type(e).__name__, sig),
                     f"{where} after {done}: {op} raised {type(e).__name__}: {str(e)[:200]}")
         ctx = f"{where} after {done}: {name}{op[1:]}"
         if first_name is None:
@@ -434,38 +445,38 @@ def run_chain(model, ops, direct=False, prefix=""):
         after = snapshot(t)
         if after != before:
             what = "newick" if after[0] != before[0] else "structure" if after[1] != before[1] else "names-or-params"
-            return ("fail", f"{prefix}{name}/frame/receiver-{what}-changed/{sig}",
+            return ("fail", K(name, "frame", f"receiver-{what}-changed", sig),
                     f"{ctx}: receiver was {before[0]} and is now {after[0]}")
         if res is t:
-            return ("fail", f"{prefix}{name}/frame/returns-receiver/{sig}", f"{ctx}: the result is the receiver itself")
+            return ("fail", K(name, "frame", "returns-receiver", sig), f"{ctx}: the result is the receiver itself")
         # -- the result's view is the receiver's view restricted to the retained tips
         exp = vrecv if keep is None else restrict(vrecv, keep)
         res_model = walk(res)
         got = view(res_model)
         c = cmp_view(got, exp)
         if c:
-            return ("fail", f"{prefix}{name}/{c[0]}/{c[1]}/{sig}", f"{ctx} -> {safe_newick(res)}: {c[2]}")
+            return ("fail", K(name, c[0], c[1], sig), f"{ctx} -> {safe_newick(res)}: {c[2]}")
         # -- the library's own observers agree with the walked structure
         try:
             gd = res.get_distances()
             gt = sorted(res.get_tip_names())
         except Exception as e:
-            return ("fail", f"{prefix}{name}/observer/raises-{type(e).__name__}/{sig}", f"{ctx}: get_distances on the result: {e}")
+            return ("fail", K(name, "observer", f"raises-{type(e).__name__}", sig), f"{ctx}: get_distances on the result: {e}")
         if gt != got[1]:
-            return ("fail", f"{prefix}{name}/observer/get_tip_names/{sig}", f"{ctx}: get_tip_names {gt} but tips are {got[1]}")
+            return ("fail", K(name, "observer", "get_tip_names", sig), f"{ctx}: get_tip_names {gt} but tips are {got[1]}")
         for (a, b), d in got[2].items():
             if (a, b) not in gd or (b, a) not in gd or not close(float(gd[(a, b)]), d) or not close(float(gd[(b, a)]), d):
-                return ("fail", f"{prefix}{name}/observer/get_distances/{sig}",
+                return ("fail", K(name, "observer", "get_distances", sig),
                         f"{ctx}: get_distances()[{a!r},{b!r}] = {gd.get((a, b))!r}, edges on the path sum to {d!r}")
         if len(gd) != 2 * len(got[2]):
-            return ("fail", f"{prefix}{name}/observer/get_distances-extra-keys/{sig}", f"{ctx}: {len(gd)} keys for {len(got[1])} tips")
+            return ("fail", K(name, "observer", "get_distances-extra-keys", sig), f"{ctx}: {len(gd)} keys for {len(got[1])} tips")
         ic = intent_check(name, extra, recv_model, res_model, exp)
         if ic:
-            return ("fail", f"{prefix}{name}/intent/{ic[0]}/{sig}", f"{ctx} -> {safe_newick(res)}: {ic[1]}")
+            return ("fail", K(name, "intent", ic[0], sig), f"{ctx} -> {safe_newick(res)}: {ic[1]}")
         done.append(name)
         t = res
     if len(ops) > 1 and snapshot(t_first) != snap_first:
-        return ("fail", f"{prefix}{done[-1]}/frame/changes-tree-that-{first_name}-was-called-on",
+        return ("fail", K(done[-1], "frame", f"changes-tree-that-{first_name}-was-called-on", "-"),
                 f"{where}: after {done} the original tree is {snapshot(t_first)[0]}, was {snap_first[0]}")
     return ("ok", len(v0[1]) >= 3)
 
@@ -611,10 +622,12 @@ EXOTIC = (["x y", "x_y", "x  y", " x", "x ", "x y_z", "'x'", "'", '"', "_", "1",
 
 
 def name_class(nm):
+    if nm == "root":
+        return "same-as-root-node"
     if nm.isalnum():
         return "plain"
-    if len(nm) >= 2 and nm[0] == "'" == nm[-1]:
-        return "wrapped-in-single-quotes"
+    if nm[0] == "'" == nm[-1]:
+        return "starts-and-ends-with-single-quote"
     if nm != nm.strip():
         return "leading-or-trailing-space"
     if any(c in nm for c in "()[],:;"):
@@ -661,10 +674,15 @@ def gen_roundtrip(tier, seed):
 
 def contract_roundtrip(case):
     m, op, direct, nm, pos = case
-    if nm is not None and pos == "internal" and op[0] in ("newick", "newick_std", "copy", "deepcopy"):
-        pass  # internal names are not written by these; the view must still be preserved
-    prefix = "roundtrip/" if nm is None else f"roundtrip[{pos}-name:{name_class(nm)}]/"
-    return run_chain(m, [op], direct=direct, prefix=prefix)
+    if nm is None:
+        return run_chain(m, [op], direct=direct, prefix="roundtrip/")
+    cls = name_class(nm)
+
+    def keyfn(name, comp, detail, sig):  # one key per (name class, format, symptom); the position is in the message
+        fam = "json" if "json" in name else "newick" if ("newick" in name or name.startswith("file_")) else name
+        return f"roundtrip[name:{cls}]/{fam}/{comp}/{detail}"
+
+    return run_chain(m, [op], direct=direct, keyfn=keyfn)
 
 
 # ------------------------------------------------------------------------------------------------ tree distances
